@@ -69,6 +69,10 @@ type Ctx struct {
 	curSpec  *specRun
 	modSink  *[]modTarget
 	wfDone   map[*Term]bool
+	curMk    *markerInfo
+	reads    []readEvent
+	prefer   []*Term
+	oldBinds map[int]Val
 	sliceTerms map[*Term]bool
 }
 
@@ -125,6 +129,7 @@ type Frame struct {
 	baseReach *Term
 	absBase  *Term // absolute path condition at frame entry; curReach is relative to it
 	entryReach map[*ssa.BasicBlock]*Term
+	entry    *State
 }
 
 type markerInfo struct {
@@ -136,6 +141,7 @@ type markerInfo struct {
 	callerFrame *Frame
 	callPos token.Pos
 	pre *State
+	freshRefs []*Term
 }
 
 func (c *Ctx) assume(t *Term) {
@@ -152,6 +158,9 @@ func (c *Ctx) oblige(fr *Frame, kind, detail string, cond *Term, pos token.Pos) 
 	reach := TTrue
 	if fr != nil {
 		reach = fr.abs()
+	}
+	if cond == nil {
+		unsupported("internal: nil condition for obligation %s(%s)", kind, detail)
 	}
 	goal := Implies(reach, cond)
 	if goal == TTrue {
@@ -338,6 +347,7 @@ func (c *Ctx) runFunc(fn *ssa.Function, args []Val, bindings []Val, st *State, r
 
 	fr.baseReach = reach
 	fr.absBase = reach
+	fr.entry = st.clone()
 	fr.pending[fn.Blocks[0]] = []EdgeRec{{to: fn.Blocks[0], cond: TTrue, st: st}}
 	fr.runRegion(nil)
 
@@ -405,6 +415,38 @@ func mergeVals(conds []*Term, vs []Val) Val {
 	}
 	if allSame {
 		return vs[0]
+	}
+	// function values: keep the alternatives
+	allClo := false
+	for _, v := range vs {
+		if v.Clo != nil || v.CloAlts != nil {
+			allClo = true
+		}
+	}
+	for _, v := range vs {
+		if v.Clo == nil && v.CloAlts == nil {
+			if v.T != nil && v.T.Lit {
+				continue // nil func constant
+			}
+			allClo = false
+		}
+	}
+	if allClo {
+		var alts []CloAlt
+		for i, v := range vs {
+			c := conds[i]
+			switch {
+			case v.Clo != nil:
+				alts = append(alts, CloAlt{c, v.Clo})
+			case v.CloAlts != nil:
+				for _, a := range v.CloAlts {
+					alts = append(alts, CloAlt{And(c, a.Cond), a.Clo})
+				}
+			default:
+				alts = append(alts, CloAlt{c, nil})
+			}
+		}
+		return Val{CloAlts: alts}
 	}
 	var ts []*Term
 	for _, v := range vs {
@@ -736,7 +778,7 @@ func (fr *Frame) runLoop(li *LoopInfo) {
 		phiHavoc[phi] = hv
 		fr.vals[phi] = hv
 	}
-	fr.autoInduction(li, phiHavoc, in)
+	autoTerm := fr.autoInduction(li, phiHavoc, in)
 	var measure0 *Term
 	if ls != nil {
 		measure0 = fr.evalLoopSpec(li, ls, "assume", nil)
@@ -766,7 +808,7 @@ func (fr *Frame) runLoop(li *LoopInfo) {
 			fr.vals[phi] = v
 		}
 	}
-	if ls == nil || ls.Decr == nil {
+	if (ls == nil || ls.Decr == nil) && !autoTerm {
 		c.termUnproved = append(c.termUnproved, fmt.Sprintf("%s %s", fr.fn.String(), tag))
 	}
 	// post-hoc definitions of the epoch variables
@@ -852,6 +894,9 @@ func (c *Ctx) typeAssume(x *Term, t types.Type, reach *Term) {
 				c.sliceTerms[x] = true
 			}
 		}
+	case *types.Interface:
+		// a nil interface has neither type nor value
+		c.assume(Implies(Eq(DataField_(x, 0), BVLit(0, 32)), Eq(DataField_(x, 1), BVLit(0, 64))))
 	case *types.Struct:
 		if opaqueStruct(t) {
 			return
@@ -870,7 +915,7 @@ func needsTypeAssume(t types.Type, d int) bool {
 		return false
 	}
 	switch u := t.Underlying().(type) {
-	case *types.Slice:
+	case *types.Slice, *types.Interface:
 		return true
 	case *types.Basic:
 		return u.Info()&types.IsString != 0
@@ -901,7 +946,7 @@ func sliceWF(s *Term) *Term {
 
 // autoInduction: for the common counting shapes, assume bounds relating a phi to its start value.
 // i := a; i < n; i++   gives  i >= a   (signed, no wrap because i < n held on every previous iteration)
-func (fr *Frame) autoInduction(li *LoopInfo, phis map[*ssa.Phi]Val, in []EdgeRec) {
+func (fr *Frame) autoInduction(li *LoopInfo, phis map[*ssa.Phi]Val, in []EdgeRec) (terminates bool) {
 	for phi, hv := range phis {
 		if !isInteger(phi.Type()) || hv.T == nil {
 			continue
@@ -984,6 +1029,11 @@ func (fr *Frame) autoInduction(li *LoopInfo, phis map[*ssa.Phi]Val, in []EdgeRec
 		if signed {
 			le, ge = "bvsle", "bvsge"
 		}
+		// a counting loop whose bound is defined outside the loop and whose only exit-relevant guard is this
+		// comparison terminates: the distance to the bound strictly decreases and is bounded below
+		if _, isC := cmp.Y.(*ssa.Const); isC || !li.blocks[blockOf(cmp.Y)] {
+			terminates = true
+		}
 		if step == 1 {
 			fr.ctx.assume(Implies(fr.abs(), BVCmp(ge, hv.T, start)))
 			// range loops: index in [-1, n)
@@ -997,6 +1047,14 @@ func (fr *Frame) autoInduction(li *LoopInfo, phis map[*ssa.Phi]Val, in []EdgeRec
 			fr.ctx.assume(Implies(fr.abs(), BVCmp(le, hv.T, start)))
 		}
 	}
+	return terminates
+}
+
+func blockOf(v ssa.Value) *ssa.BasicBlock {
+	if ins, ok := v.(ssa.Instruction); ok {
+		return ins.Block()
+	}
+	return nil
 }
 
 // resolveEpoch decides, per state key, whether the loop modifies it.
@@ -1031,6 +1089,12 @@ func (fr *Frame) resolveEpoch(ep *Epoch, sIn *State, backs []EdgeRec) {
 		}
 		if unmodified {
 			hv.Def = sIn.get(k, srt)
+			continue
+		}
+		if k == "alive" {
+			// allocation inside the loop: the set of live objects only grows
+			qa := BoundVar("r", SRef)
+			fr.ctx.assume(Forall([]*Term{qa}, Implies(Select(sIn.get(k, srt), qa), Select(hv, qa))))
 			continue
 		}
 		if partial && srt.K == KArray {
@@ -1210,6 +1274,23 @@ func (fr *Frame) evalLoopSpec(li *LoopInfo, ls *LoopSpec, mode string, _ interfa
 		return nil
 	}
 	args := fr.loopArgs(li, ls, gen)
+	// old() expressions of the invariant: evaluated once in the entry state of this activation
+	savedBinds := c.oldBinds
+	c.oldBinds = map[int]Val{}
+	defer func() { c.oldBinds = savedBinds }()
+	if og := c.eng.genFunc(fr.contract, fmt.Sprintf("_loop%d_olds", li.ordinal)); og != nil {
+		oargs := make([]Val, len(og.Params))
+		for i := range og.Params {
+			if i < len(fr.fn.Params) {
+				oargs[i] = fr.vals[fr.fn.Params[i]]
+			} else if g, ok := c.ghostVal(og.Params[i].Name(), og.Params[i].Type()); ok {
+				oargs[i] = g
+			} else {
+				unsupported("ghost %s not bound", og.Params[i].Name())
+			}
+		}
+		c.runFunc(og, oargs, nil, fr.entry.clone(), TTrue, fr, frameOpts{spec: true})
+	}
 	var measure *Term
 	tag := fmt.Sprintf("loop%d", li.ordinal)
 	h := li.header
